@@ -163,6 +163,11 @@ def run(ctx):
                   "StaticTable::get indexes the table without a bounds check (%s)" % [t.ckey for t in idx], "uses .get(index)")
         ps = [p for p in ru.all_paths(ctx, "C11-a", b) if p.end == "return"]
         shapes = sorted(p.ret_shape() for p in ps)
+        if len(ps) == 1 and ps[0].ret[0] == "call" and pa.short(ps[0].ret[1]) == "ok_or" and len(ps[0].ret[2]) == 2:
+            # `TABLE.get(index).ok_or(Error::Unknown(index))` is the same two-row table
+            g_, e_ = ps[0].ret[2]
+            if g_[0] == "call" and pa.short(g_[1]) == "get" and e_[0] == "agg" and e_[2] == "Unknown":
+                shapes = ["Err(Error::Unknown)", "Ok(call:get<Some>.0)"]
         ctx.check(shapes == ["Err(Error::Unknown)", "Ok(call:get<Some>.0)"] or (len(shapes) == 2 and shapes[0].startswith("Err(Error::Unknown")
                   and shapes[1].startswith("Ok(")), "C11-a", b.key, "out of range -> Err(Unknown)",
                   "StaticTable::get returns %s" % shapes, str(shapes))
